@@ -319,6 +319,22 @@ def discharge(ob: Obligation, timeout_ms=20000, extra_axioms=(), use_cvc5=True):
             for val in (1, "distinct", 2):
                 if not nl or time.time() > t_end:
                     break
+                # (a) all at once
+                s3 = z3.Solver()
+                s3.set("timeout", 3000)
+                for h in hyps:
+                    s3.add(h)
+                for a in ax:
+                    s3.add(a)
+                s3.add(z3.Not(goal))
+                for j_, v_ in enumerate(nl):
+                    s3.add(v_ == (val if val != "distinct" else j_ + 1))
+                if s3.check() == z3.sat:
+                    ob.status = "failed"
+                    ob.model = s3.model()
+                    ob.backend = "z3 (non-linear symbols specialised)"
+                    break
+                # (b) greedily, keeping the hypotheses satisfiable
                 base = z3.Solver()
                 base.set("timeout", 400)
                 for h in hyps:
